@@ -171,7 +171,7 @@ class PtySendControl(Contract):
 
 # ---- shapes ---------------------------------------------------------------------------------------------
 def log_file(b, field, kind):
-    return b.opt(field, lambda: b.obj(field, 'iface:file', closed=True, _name=b.const(field), _kind=b.const(kind)))
+    return b.opt(field, lambda: b.obj(field, 'iface:file', sealed=True, _name=b.const(field), _kind=b.const(kind)))
 
 
 def init_ghost(b, kind):
@@ -202,19 +202,19 @@ def transport_shape(b, cls, logs=LOGS):
     for lf in LOGS:
         f[lf] = log_file(b, lf, kind) if lf in logs else b.none()
     if kind == 'b':
-        coder = b.obj('nullcoder', 'pexpect.spawnbase._NullCoder', closed=True)
+        coder = b.obj('nullcoder', 'pexpect.spawnbase._NullCoder', sealed=True)
         f['_encoder'] = f['_decoder'] = coder
     else:
-        f['_encoder'] = b.obj('encoder', 'iface:encoder', closed=True)
-        f['_decoder'] = b.obj('decoder', 'iface:decoder', closed=True)
+        f['_encoder'] = b.obj('encoder', 'iface:encoder', sealed=True)
+        f['_decoder'] = b.obj('decoder', 'iface:decoder', sealed=True)
     if cls == PTY:
-        f['ptyproc'] = b.obj('ptyproc', 'iface:ptyproc', closed=False)
+        f['ptyproc'] = b.obj('ptyproc', 'iface:ptyproc', sealed=False)
     if cls == POPEN:
-        f['proc'] = b.obj('proc', 'iface:popen', closed=False, stdin=b.obj('stdin', 'iface:pipe', closed=True))
+        f['proc'] = b.obj('proc', 'iface:popen', sealed=False, stdin=b.obj('stdin', 'iface:pipe', closed=True))
     if cls == SOCK:
-        f['socket'] = b.obj('socket', 'iface:socket', closed=False)
+        f['socket'] = b.obj('socket', 'iface:socket', sealed=False)
     init_ghost(b, kind)
-    return b.obj('self', cls, closed=False, **f), kind
+    return b.obj('self', cls, sealed=False, **f), kind
 
 
 def send_arg(b, kind, name='s'):
